@@ -263,9 +263,11 @@ def case_stream(ctx, salt, allow_titled=True):
     yield [["H", 3], ["H", 1], ["H", 3], ["Q", [["H", 2]]], ["P"], ["L", [["H", 1]]], ["N", [["H", 1]]], ["H", 2]]
     yield [["H", 1], ["I", 2, [["H", 1], ["H", 2], ["I", 1, [["H", 1]]]]], ["P"], ["H", 2], ["Q", [["I", 0, [["H", 1]]]]]]
     yield [["H", 1], ["I", 2, [["N", [["H", 2]]], ["Q", [["H", 2]]]]], ["H", 2]]
+    if allow_titled:
+        yield [["H", 1], ["H", 2], ["Q", [["P"], ["T", [["H", 2], ["P"]]]]], ["P"], ["H", 3]]
     import random
     rng = random.Random("%s-%s-%s" % (ctx.seed, salt, ctx.tier))
-    for _ in range(ctx.budget(1500, 15000, 30000)):
+    for _ in range(ctx.budget(4000, 15000, 30000)):
         r = rng.random()
         if r < 0.35:
             # long level sequences interleaved with paragraphs
@@ -463,6 +465,14 @@ def check_doc(ctx, case, d):
                 rubrics[hid] = x[2]
                 order.append(hid)
     walk(itree, None)
+    opened = sorted(i for i in ignored if i in obs_parent)
+    if opened:
+        fail("sections:match-titles-directive-opens-section",
+             "heading(s) %s in the body of a directive that nested-parses with match_titles=True opened a section "
+             "(attached to %s, outside the directive)" % (", ".join("h%d" % i for i in opened),
+                                                          ["document" if obs_parent[i] is None else "h%s" % obs_parent[i] for i in opened]),
+             "rubric", "section")
+        ok = True  # keep checking the structure outside the directive
     obs_parent = {i: p for i, p in obs_parent.items() if i not in ignored}
     rubrics = {i: l for i, l in rubrics.items() if i not in ignored}
     order = [i for i in order if i not in ignored]
@@ -484,7 +494,7 @@ def check_doc(ctx, case, d):
     if not ignored and len(iw) != nwarn:
         fail("sections:warning-count", "%d [myst.header] warnings, expected %d (one per upward skip of more than one level)"
              % (len(iw), nwarn), nwarn, iw)
-    return ok
+    return ok and not opened
 
 
 class _MiniCtx:
